@@ -14,7 +14,7 @@ def na3(path): return (list(path) + [0, 0, 0])[:3]
 
 class Session:
     """builds one script block"""
-    def __init__(self, sid, cfg, cfgdir, paths=None, present=None, full=True, extra_nodes=(), flush_ms=0, rounds=12, tree=None, boot=False, bus_opts=()):
+    def __init__(self, sid, cfg, cfgdir, paths=None, present=None, full=True, extra_nodes=(), flush_ms=0, rounds=12, tree=None, boot=False, bus_opts=(), script=None):
         """tree: list of (path, uid) played by the bus simulator (default: derived from paths / the configuration);
         boot: start-up session (automatic replies on, no drain rounds, transcript + connectivity checked, C15/C20)"""
         self.sid = sid; self.cfg = cfg; self.full = full; self.nb = 0; self.stopped = False; self.boot = boot
@@ -29,7 +29,7 @@ class Session:
             byuid = {tuple(u): b for b, u in uid.items()}
             self.paths = {byuid[tuple(u)]: list(p) for p, u in tree if tuple(u) in byuid}             # informational (generators)
         self.tree = [(list(p), list(u)) for p, u in tree]
-        self.s = Script(sid); self.ev = []          # ev: list of dict(tmpl, act, drain, get) line indexes
+        self.s = script if script is not None else Script(sid); self.ev = []          # ev: list of dict(tmpl, act, drain, get) line indexes
         cfgmod.write(cfg, cfgdir)
         s = self.s
         s.add("bus clear"); s.add("bus on"); s.add("bus autoreply " + ("on" if boot else "off"))
